@@ -33,15 +33,28 @@ class SourceModule(Object):
         except OSError:
             return True
 
-    @cached_property
+    partial_hits = 0  # how many times a module being analysed was asked for its names
+
+    @property
     def scope(self):
         # type: () -> SourceScope
+        try:
+            return self._scope  # type: ignore[has-type]
+        except AttributeError:
+            pass
+
         source = Source(open(self.filename).read(), self.filename)
+        hits = SourceModule.partial_hits
         self._loading = True
         try:
             scope = extract_scope(source, self.project)
         finally:
             self._loading = False
+
+        if hits == SourceModule.partial_hits:
+            self._scope = scope
+        # else: analysed in the middle of an import cycle, what it got from its
+        # partner depends on which module was asked first; not worth keeping
         return scope
 
     @property
@@ -50,6 +63,7 @@ class SourceModule(Object):
         if getattr(self, '_loading', False):
             # import cycle: like a partially initialized module,
             # the module being analysed has no names yet
+            SourceModule.partial_hits += 1
             return {}
         return self.scope.exported_names  # type: ignore[return-value]
 
